@@ -18,6 +18,8 @@ def _root(name):
       _ROOTS[name] = None
     else:
       try:
+        import os
+        os.environ.setdefault('TF_CPP_MIN_LOG_LEVEL', '3')
         _ROOTS[name] = importlib.import_module(modname)
       except Exception as e:  # pragma: no cover
         raise AnalysisError('cannot import %s to read signatures: %s' % (
